@@ -3,7 +3,7 @@
    in harness/check_C06.py and harness/impl/c06.py):
      SEP1 = [1] between the fields of one argument / of the result,
      SEP2 = [2] between list items, SEP3 = [3] between the two halves of a pair. *)
-From MV Require Import Base.Strs FS.Replace Determ.Model Determ.DepFile.
+From MV Require Import Base.Strs FS.Replace Determ.Model Determ.DepFile Determ.PkgConfig.
 Open Scope N_scope.
 
 Definition SEP1 : str := [1].
@@ -131,6 +131,16 @@ Definition run (fn : str) (args : list str) : str :=
   else if str_eqb fn (s2l "depnames") then
     let '(deps, nonces) := split_mark args in
     join SEP2 (dep_names (map dec_dep deps) (map digits_val nonces))
+  else if str_eqb fn (s2l "pcreqs") then
+    match args with
+    | pub :: priv :: vr => requires_lines (df_of_rules (map parse_rule vr)) (lst pub) (lst priv)
+    | _ => s2l "?" end
+  else if str_eqb fn (s2l "pcdedup") then
+    match args with
+    | [w; a; b; c; d; f; g] =>
+        let r := remove_dups (lst w) (mkpc (lst a) (lst b) (lst c) (lst d) (lst f) (lst g)) in
+        join SEP1 (map (join SEP2) [pub_reqs r; pub_libs r; priv_reqs r; priv_libs r; cflags r; cflags_private r])
+    | _ => s2l "?" end
   else if str_eqb fn (s2l "depfile") then
     match args with
     | name :: rules =>
